@@ -1015,5 +1015,11 @@ func gen(r *Rng, tier string, emit Emit) {
 		if it%6 == 2 || (tier == "thorough" && it%12 == 5) {
 			genAmdImage(rr.Fork(18), p, tier, it, emit)
 		}
+		if it%15 == 0 { // last, so that the other streams keep their values
+			rh := rr.Fork(19)
+			msg := H(rh.Bytes(rh.Pick(0, 1, 55, 56, 64, 111, 112, 128, 200)))
+			emit("P", "p_hash_table", "cbnt", msg)
+			emit("P", "p_hash_table", "bg", msg)
+		}
 	}
 }
